@@ -62,7 +62,12 @@ type Scheduler struct {
 	byG     map[int64]*reqState
 	reqs    []*reqState
 	events  chan schedEvent
-	holder  int // request holding the single connection, -1 none
+	holder  int // request holding the single connection, -1 none (bookkeeping for messages only)
+	// ConnBusy reports whether the single connection is checked out right now (observed,
+	// e.g. db.Stats().InUse > 0): the scheduler does not assume that a write handle
+	// pins the connection, it looks.
+	ConnBusy func() bool
+	inHandle map[int]bool
 	Steps   []SchedStep
 	step    int
 	// BlockTimeout: a released goroutine that neither parks nor finishes within this
@@ -75,7 +80,7 @@ type Scheduler struct {
 // NewScheduler attaches a scheduler to ip. sqlConn says whether the storage below is
 // SQLite with a pool of one connection.
 func NewScheduler(ip *IPersist, sqlConn bool) *Scheduler {
-	s := &Scheduler{ip: ip, sqlConn: sqlConn, byG: map[int64]*reqState{}, events: make(chan schedEvent, 256), holder: -1,
+	s := &Scheduler{ip: ip, sqlConn: sqlConn, byG: map[int64]*reqState{}, events: make(chan schedEvent, 256), holder: -1, inHandle: map[int]bool{},
 		BlockTimeout: 2 * time.Second, DeadlockTimeout: 10 * time.Second}
 	ip.Yield = s.yield
 	ip.After = s.after
@@ -115,11 +120,13 @@ func (s *Scheduler) after(point, logID string, err error) {
 	case PWriteOps:
 		if err == nil {
 			s.holder = r.idx
+			s.inHandle[r.idx] = true
 		}
 	case PWriteClos:
 		if s.holder == r.idx {
 			s.holder = -1
 		}
+		delete(s.inHandle, r.idx)
 	}
 }
 
@@ -218,7 +225,12 @@ func (s *Scheduler) Run(fns []func(), choices []int) SchedResult {
 		var enabled []int
 		s.mu.Lock()
 		holder := s.holder
+		in := map[int]bool{}
+		for k, v := range s.inHandle {
+			in[k] = v
+		}
 		s.mu.Unlock()
+		busy := s.sqlConn && s.ConnBusy != nil && s.ConnBusy()
 		for _, r := range s.reqs {
 			if r.state == "done" {
 				continue
@@ -227,7 +239,9 @@ func (s *Scheduler) Run(fns []func(), choices []int) SchedResult {
 			if r.state != "parked" {
 				continue
 			}
-			if s.sqlConn && needsConn(r.point) && holder >= 0 && holder != r.idx {
+			// a request outside its own write handle that needs the (observed busy)
+			// connection would block inside the call: it is not offered
+			if busy && needsConn(r.point) && !in[r.idx] {
 				r.waited = true
 				continue
 			}
